@@ -147,26 +147,32 @@ def check_cds(spec, ctx):
     # describe ONE uninterrupted reading frame (documented: internal frameshifts are lost)
     if not degenerate and model:
         sb = rm.sorted_blocks(bl)
-        merged = []
-        for s_, e_ in sb:
-            if merged and s_ <= merged[-1][1]:
-                merged[-1][1] = max(merged[-1][1], e_)
-            else:
-                merged.append([s_, e_])
+
+        def merge(keep_overlaps):
+            out = []
+            for s_, e_ in sb:
+                if out and (s_ == out[-1][1] if keep_overlaps else s_ <= out[-1][1]):
+                    out[-1][1] = max(out[-1][1], e_)
+                else:
+                    out.append([s_, e_])
+            return out
         first_frame = frames[0] if strand == "+" else frames[-1]
-        first_len = (merged[0][1] - merged[0][0]) if strand == "+" else (merged[-1][1] - merged[-1][0])
-        if first_len > first_frame or len(merged) == 1:
+        # optimize_blocks documents that overlapping blocks (the -1 frameshift model) are preserved and only touching ones merged;
+        # optimize_and_combine_blocks merges both
+        for name, merged in (("optimize_blocks", merge(True)), ("optimize_and_combine_blocks", merge(False))):
+            first_len = (merged[0][1] - merged[0][0]) if strand == "+" else (merged[-1][1] - merged[-1][0])
+            if not (first_len > first_frame or len(merged) == 1):
+                continue
             expf = rm.frames_from_offset(merged, strand, first_frame)
-            for name in ("optimize_blocks", "optimize_and_combine_blocks"):
-                try:
-                    mc = getattr(fresh(), name)()
-                except (BioCantorException, ValueError) as e:
-                    ctx.fail("merged_form_raises:" + name, repr(e)[:120])
-                    continue
-                ctx.eq("merged_form_blocks:" + name, [list(b) for b in rm.loc_blocks(mc.chromosome_location)], merged)
-                ctx.eq("merged_form_frames:" + name, [f.value for f in mc.frames], expf)
-                if len(merged) < len(sb):
-                    ctx.label("merged_form_lost_a_block_boundary")
+            try:
+                mc = getattr(fresh(), name)()
+            except (BioCantorException, ValueError) as e:
+                ctx.fail("merged_form_raises:" + name, repr(e)[:120])
+                continue
+            ctx.eq("merged_form_blocks:" + name, [list(b) for b in rm.loc_blocks(mc.chromosome_location)], merged)
+            ctx.eq("merged_form_frames:" + name, [f.value for f in mc.frames], expf)
+            if len(merged) < len(sb):
+                ctx.label("merged_form_lost_a_block_boundary")
     # (4) translation
     for table in ("DEFAULT", "STANDARD", "PROKARYOTE"):
         for truncate in (False, True):
@@ -218,6 +224,9 @@ def check_cds(spec, ctx):
                 ctx.label("in_frame_stop")
     # (5) windows
     lo, hi = bl[0][0], bl[-1][1]
+    overlapping = any(bl[i][1] > bl[i + 1][0] for i in range(len(bl) - 1))
+    if overlapping:
+        ctx.nt("overlapping_blocks")
     all_pos = set(p for c in model for p in c)
     for ws, we in spec["windows"]:
         for expand in (False, True):
@@ -230,6 +239,12 @@ def check_cds(spec, ctx):
                 exp_codons = [c for c in model if any(wlo <= p < whi for p in c)]
             else:
                 exp_codons = [c for c in model if all(wlo <= p < whi for p in c)]
+            # a window that clips two overlapping blocks to remainders tying on start or end: the order of such blocks is not
+            # something a Location represents (C01 F1/F25) - such windows are not compared
+            cl_ = [(max(b[0], wlo), min(b[1], whi)) for b in rm.cleaned_blocks(bl, strand, frames) if max(b[0], wlo) < min(b[1], whi)]
+            if overlapping and (len({a for a, _ in cl_}) < len(cl_) or len({b for _, b in cl_}) < len(cl_)):
+                ctx.label("window_clips_overlap_to_a_tie(skipped)")
+                continue
             cut = any(0 < sum(1 for p in c if wlo <= p < whi) < 3 for c in model)
             if cut:
                 ctx.label("window_cuts_codon")
@@ -283,7 +298,7 @@ def check_construct_frames(spec, ctx):
 @st.composite
 def strat_cds(draw, tier="quick"):
     big = tier == "thorough"
-    sp = draw(S.cds_spec(max_k=5, max_len=12 if big else 9))
+    sp = draw(S.cds_spec(max_k=5, max_len=12 if big else 9, overlap_prob=5))
     lo, hi = sp["blocks"][0][0], sp["blocks"][-1][1]
     edge = st.one_of(st.none(), st.integers(max(0, lo - 1), hi + 1))
     wins = draw(st.lists(st.tuples(edge, edge), min_size=2, max_size=5))
@@ -354,7 +369,7 @@ PROP = Prop(
     pid="C05",
     legs=[
         Leg("cds", check_cds, strategy=strat_cds, examples=EX, n_quick=700, n_thorough=7000, shards_quick=4,
-            must_hit=["minus&k>=3", "offset1", "offset2", "zero_gap", "frameshift", "window_cuts_codon", "window_at_exon_boundary",
+            must_hit=["minus&k>=3", "offset1", "offset2", "zero_gap", "frameshift", "overlapping_blocks", "window_cuts_codon", "window_at_exon_boundary",
                       "single_exon&offset!=0&window", "in_frame_stop", "cds_no_complete_codon"],
             rule="CDS from layouts (k<=5, 0-bp gaps) x strand x start offset 0/1/2, frames consistent or with one programmed frameshift, ACGT (1/6 with N/R/Y) genomes, 4..7 chromosome windows each with and without expansion; codon triples, three extraction paths, 12 translate configurations, predicates"),
         Leg("cds_coverage_guided", check_cds, fuzz_of="cds", n_quick=150, n_thorough=6000, shards_quick=2, shards_thorough=8,
